@@ -17,7 +17,7 @@ from bpsa.terms import walk, short, TERM_IDX
 from . import wire, C11, C15, roles as R, weights
 
 LEVEL_TEXT = ('Static analysis (boundary-event trace, container-order model, evaluated constants). Decides that every wire-visible constant, '
-              'primitive, label, absorption order and byte layout equals the frozen 0.4.0 table. Does not decide that recorded proofs verify or that an '
+              'primitive, label, absorption order, loop sharing of absorptions and byte layout equals the frozen 0.4.0 table. Does not decide that recorded proofs verify or that an '
               'independent implementation interoperates (behaviour of two programs).')
 ASSUMPTIONS = ['the frozen table below is the released 0.4.0 protocol (taken from the pinned tree)', 'dependency primitives (merlin, blake2, sha3, dalek) are unchanged (Cargo.lock is part of the facts hash)']
 RULE_TEXT = 'one obligation per table entry; non-trivial = compared against a constant / term extracted from MIR'
